@@ -8,7 +8,7 @@ from vlib import scenario, record, agp_model, evolvent_model as em
 LEVEL = "exploration"
 RULE = ("seeded runs on objectives with exactly known Lipschitz constant L on the unit cube and exactly known (cones, quadratic wells, linear, off-box quadratics, constants) or "
         "upper-estimated (sums of sines) global minimum, N=1..3 (quick) / 1..5 (thorough), r in (1,60], eps inside the floating-point domain, densities 2..12, two classes: "
-        "'flat' (K_N*L <= r, bound unconditional) and 'near-threshold' (r*M around K_N*L, minima placed at images of dyadic curve points midway between early trials), plus 'hidden basin' flat objectives: a background of slope far below the floor 1 of M with one narrow cone of slope L ~ r/K_N holding the global minimum. A run "
+        "'flat' (K_N*L <= r, bound unconditional) and 'near-threshold' (r*M around K_N*L, minima placed at images of dyadic curve points midway between early trials), plus 'hidden basin' flat objectives: a background of slope far below the floor 1 of M with one narrow cone of slope L ~ r/K_N holding the global minimum, and 'multiscale' objectives (eps far below 2^-m, a narrow steep notch at a dyadic point plus a slightly deeper, gentler basin elsewhere). A run "
         "QUALIFIES when it stopped by accuracy and r*M >= K_N*L held with the M in force when the last interval was selected (reconstructed by the reference model from the "
         "authenticated trial log); for qualifying runs best - f* must be below (r*M_final/2)*eps + L*2^-m*(sqrt(N+3)+sqrt(N)/2) (grid term 0 for N=1). "
         "Non-trivial: qualifying runs; distinct = (family, N, r, eps, m, trial count).")
@@ -77,6 +77,27 @@ def cases(tier, seed):
         obj = {"fam": "cones", "a": [a1, a2], "c": [0.0, c2], "K": [k1, L]}
         out.append({"N": N, "lower": lo, "upper": hi, "box": kind, "obj": {"fam": "scaledby", "base": obj, "scale": 1.0}, "r": r, "eps": eps,
                     "iters": 3000, "m": m, "refine": False, "cls": "hidden"})
+    # 'multiscale': eps far below 2^-m; a narrow steep notch at a dyadic point is found early and refined (its slope, visible only
+    # on intervals much shorter than 2^-m, drives M up), while a slightly deeper basin of smaller slope hides between coarse trials
+    nm = 48 if tier == "quick" else 600
+    for i in range(nm):
+        rng = scenario.rng_for(seed, "C01M", i)
+        N, m = 1, 10
+        lo, hi, kind = scenario.gen_box(rng, N)
+        r = float(rng.choice([3.0, 3.0, 3.5]))
+        d1 = float(rng.uniform(0.05, 0.2))
+        w1 = float(rng.uniform(0.3, 0.6)) * 2.0 ** -m          # half-width of the notch: inside one interval of length 2^-m
+        s1 = d1 / w1                                           # its slope is seen only between trials closer than 2^-m
+        s2 = s1 * float(rng.uniform(0.93, 1.0))
+        d2 = d1 * float(rng.uniform(1.05, 1.3))
+        a1 = [float(rng.choice([0.75, 0.25, 0.5, 0.625, 0.375, 0.875]))]
+        a2 = [float(rng.uniform(0.05, 0.95))]
+        while abs(a2[0] - a1[0]) < 0.02:
+            a2 = [float(rng.uniform(0.05, 0.95))]
+        eps = float(10 ** rng.uniform(-6, -5))
+        obj = {"fam": "cones", "a": [[0.5] * N, a1, a2], "c": [0.0, -d1, -d2], "K": [1e-3, s1, s2]}
+        out.append({"N": N, "lower": lo, "upper": hi, "box": kind, "obj": {"fam": "scaledby", "base": obj, "scale": 1.0}, "r": r, "eps": eps,
+                    "iters": 20000, "m": m, "refine": False, "cls": "multiscale"})
     return out
 
 
@@ -179,6 +200,6 @@ def finalize(obs, tier, stats):
     miss = [n for n in dims if not obs.get("qualifying_N%d" % n)]
     if miss:
         return "no qualifying run in dimension(s) %s" % miss, {}
-    if not obs.get("qualifying_threshold") or not obs.get("qualifying_flat") or not obs.get("qualifying_hidden"):
+    if not obs.get("qualifying_threshold") or not obs.get("qualifying_flat") or not obs.get("qualifying_hidden") or not obs.get("qualifying_multiscale"):
         return "a scenario class never qualified", {}
     return None, {"qualifying_runs": q, "largest_gap_over_bound": obs.get("max_gap_over_bound")}
